@@ -34,6 +34,10 @@ def stages(tier):
              S.grid_small(2, bs=(16,), cs=(8, 16, 17, 64), qs=(1, 3), nmax=2, endings=("close",)))
     st.append(dict(label="C: bound 2", harness="h_session", variant="sched", configs=c, share=0.6, chunk=2,
                    what="every pair of deviations"))
+    st.append(dict(label="S: stream stage alone, deviation bound 2 and preemption bound 2", harness="h_stream", variant="sched",
+                   configs=S.stream_grid(2, 0) + S.stream_grid(2, 1) + ([] if quick else S.stream_grid(3, 0, 18)), share=0.3,
+                   what="bare UncompressedFile, producer (raw writes of w bytes / appended containers of w bytes, then setFileSize) and consumer "
+                        "(reads of r bytes + dropOldData) for all (w,r,b,c) in {1..6}^4: every ordering of the four sizes"))
     if not quick:
         st.append(dict(label="D: bound 3, smallest sessions", harness="h_session", variant="sched", chunk=1,
                        configs=S.grid_small(3, bs=(64,), cs=(32, 64), qs=(1,), nmax=1, endings=("close",), sizes=[48]) +
